@@ -132,18 +132,32 @@ def observe_full(p, md, ref, rtol=1e-9):
     return full
 
 
-def observe_blocks(p, md, ref, scaled, return_format='flat_dict', rtol=1e-9):
-    """blocks of the declared variables of interest from compute_totals() of a problem built WITH them"""
+def observe_blocks(p, md, ref, scaled, return_format='flat_dict', rtol=1e-9, permute=False):
+    """blocks of the declared variables of interest from compute_totals() of a problem built WITH them.
+    permute: ask for the driver's own variables explicitly, the design variables in reversed order"""
     blocks = []
     if md['desvars'] and md['responses']:
-        Jv = p.compute_totals(driver_scaling=scaled, return_format=return_format)
         ofs = [r['name'] or ob.out_path(md, r['oid']) for r in md['responses']]
         wrts = [d['name'] or ob.out_path(md, d['oid']) for d in md['desvars']]
+        permute = permute and len(set(wrts)) == len(wrts) and len(set(ofs)) == len(ofs) and len(wrts) > 1
+        if permute:
+            p.compute_totals(driver_scaling=scaled, return_format=return_format)     # (a declared coloring is computed here)
+            Jv = p.compute_totals(of=ofs, wrt=wrts[::-1], driver_scaling=scaled, return_format=return_format)
+        else:
+            Jv = p.compute_totals(driver_scaling=scaled, return_format=return_format)
         if return_format == 'array':
             rsz = [len(voi_positions(md, r)) for r in md['responses']]
             csz = [len(voi_positions(md, d)) for d in md['desvars']]
             ro = np.concatenate([[0], np.cumsum(rsz)]).astype(int)
-            co = np.concatenate([[0], np.cumsum(csz)]).astype(int)
+            if permute:
+                # columns follow the requested (reversed) order
+                rco = np.concatenate([[0], np.cumsum(csz[::-1])]).astype(int)
+                nb = len(csz)
+                co = np.zeros(nb + 1, dtype=int)
+                cw = {b: (rco[nb - 1 - b], rco[nb - b]) for b in range(nb)}
+            else:
+                co = np.concatenate([[0], np.cumsum(csz)]).astype(int)
+                cw = {b: (co[b], co[b + 1]) for b in range(len(csz))}
         for a, r in enumerate(md['responses']):
             for b, d in enumerate(md['desvars']):
                 if return_format == 'flat_dict':
@@ -151,7 +165,7 @@ def observe_blocks(p, md, ref, scaled, return_format='flat_dict', rtol=1e-9):
                 elif return_format == 'dict':
                     m = Jv[ofs[a]][wrts[b]]
                 else:
-                    m = Jv[ro[a]:ro[a + 1], co[b]:co[b + 1]]
+                    m = Jv[ro[a]:ro[a + 1], cw[b][0]:cw[b][1]]
                 eb = ref_block(md, ref, r, d, scaled)
                 nr, nc = len(eb), len(eb[0]) if eb else 0
                 m = np.atleast_2d(m)
